@@ -123,6 +123,8 @@ private:
     bool probed64{false};
     bool cmpFeedback{false};  // cfg cmpfb: frames derived from the comparison operands of decode calls (asan variant)
     int derivedLeft{48};
+    int encDepth{0};
+    int encDerivedLeft{6};
     void deriveFromComparisons(const InFlight& f, const std::vector<cmpfb::Operand>& ops);
     uint64_t statusUpdates{0};
     bool shareInput{false};  // C19: receive buffers interned per content and shared between the threads
